@@ -14,6 +14,7 @@ import (
 	"reflect"
 	"sort"
 	"strings"
+	"sync"
 
 	vmcommon "github.com/ElrondNetwork/elrond-vm-common"
 	"github.com/ElrondNetwork/elrond-vm-common/builtInFunctions"
@@ -310,6 +311,11 @@ func (r c18Reflected) flagString() string {
 	return strings.Join(s, ",")
 }
 
+// c18Reflect reads the registered object by SHAPE, never by the name of an unexported field (a renamed field is not a
+// changed binding): the embedded pointer to a struct carrying a string and a uint32 is the epoch base (function name,
+// activation epoch); the direct uint64 field is the function's own price; the direct BaseOperationCost value its copy of
+// the base costs; the direct sync.RWMutex its execution lock.  The literal flags are NOT read here: c18BehaviourFlags
+// decides them by what the object does.
 func c18Reflect(fn vmcommon.BuiltinFunction) c18Reflected {
 	var r c18Reflected
 	v := reflect.ValueOf(fn)
@@ -319,36 +325,145 @@ func c18Reflect(fn vmcommon.BuiltinFunction) c18Reflected {
 	}
 	v = v.Elem()
 	r.typ = v.Type().Name()
-	for _, name := range []string{"freeze", "wipe", "pause", "set"} {
-		if _, direct := v.Type().FieldByName(name); !direct {
-			continue
-		}
-		f := v.FieldByName(name)
-		if f.IsValid() && f.Kind() == reflect.Bool {
-			r.flags = append(r.flags, [2]string{name, cBool(f.Bool())})
-		}
+	if v.Kind() != reflect.Struct {
+		return r
 	}
-	if be := v.FieldByName("baseEnabled"); be.IsValid() && be.Kind() == reflect.Ptr && !be.IsNil() {
-		r.enabled = true
-		r.function = be.Elem().FieldByName("function").String()
-		r.act = uint32(be.Elem().FieldByName("activationEpoch").Uint())
-	}
-	for _, name := range []string{"funcGasCost", "gasCost"} {
-		if f := v.FieldByName(name); f.IsValid() && f.Kind() == reflect.Uint64 {
+	baseT := reflect.TypeOf(vmcommon.BaseOperationCost{})
+	mutT := reflect.TypeOf(sync.RWMutex{})
+	for i := 0; i < v.NumField(); i++ {
+		f, sf := v.Field(i), v.Type().Field(i)
+		switch {
+		case sf.Anonymous && f.Kind() == reflect.Ptr && !f.IsNil() && f.Elem().Kind() == reflect.Struct:
+			e := f.Elem()
+			gotS, gotU := false, false
+			for j := 0; j < e.NumField(); j++ {
+				switch e.Field(j).Kind() {
+				case reflect.String:
+					if !gotS {
+						r.function, gotS = e.Field(j).String(), true
+					}
+				case reflect.Uint32:
+					if !gotU {
+						r.act, gotU = uint32(e.Field(j).Uint()), true
+					}
+				}
+			}
+			r.enabled = gotS && gotU
+		case f.Kind() == reflect.Uint64:
 			r.gas, r.hasGas = f.Uint(), true
+		case f.Type() == baseT:
+			r.hasBase = true
+			r.base = map[string]uint64{}
+			for j := 0; j < f.NumField(); j++ {
+				r.base[f.Type().Field(j).Name] = f.Field(j).Uint()
+			}
+		case f.Type() == mutT:
+			r.hasMutex = true
 		}
-	}
-	if f := v.FieldByName("gasConfig"); f.IsValid() && f.Kind() == reflect.Struct {
-		r.hasBase = true
-		r.base = map[string]uint64{}
-		for i := 0; i < f.NumField(); i++ {
-			r.base[f.Type().Field(i).Name] = f.Field(i).Uint()
-		}
-	}
-	if f := v.FieldByName("mutExecution"); f.IsValid() {
-		r.hasMutex = true
 	}
 	return r
+}
+
+var c18ProbeSeq int
+
+// c18BehaviourFlags: the literal flags of the seven flag-built names, decided by what the registered object DOES on a
+// scratch holding / token / role list (freeze: an unfrozen holding becomes frozen; wipe: a frozen holding disappears;
+// un-freeze: a frozen holding stays and is no longer frozen; pause / set likewise).  "?" when the object does none of these.
+func c18BehaviourFlags(w *c18World, name string, fn vmcommon.BuiltinFunction) [][2]string {
+	c18ProbeSeq++
+	tok := []byte(fmt.Sprintf("PRB%d-abcdef", c18ProbeSeq))
+	key := append([]byte(vmcommon.ElrondProtectedKeyPrefix+vmcommon.ESDTKeyIdentifier), tok...)
+	user := bytes.Repeat([]byte{0x12}, 32)
+	call := func(dst vmcommon.UserAccountHandler, rcv []byte, args ...[]byte) (err error) {
+		defer func() {
+			if p := recover(); p != nil {
+				err = fmt.Errorf("panic: %v", p)
+			}
+		}()
+		_, err = fn.ProcessBuiltinFunction(nil, dst, c18Call(vmcommon.ESDTSCAddress, rcv, args...))
+		return err
+	}
+	switch name {
+	case "ESDTFreeze", "ESDTUnFreeze", "ESDTWipe":
+		holding := func(frozen bool) *c18Account {
+			a := c18NewAccount(user)
+			b, _ := c18Marshalizer{}.Marshal(&esdt.ESDigitalToken{Value: big.NewInt(10), Properties: (&builtInFunctions.ESDTUserMetadata{Frozen: frozen}).ToBytes()})
+			_ = a.SaveKeyValue(key, b)
+			return a
+		}
+		state := func(a *c18Account) (present, frozen bool) {
+			v, _ := a.RetrieveValue(key)
+			if len(v) == 0 {
+				return false, false
+			}
+			d := &esdt.ESDigitalToken{}
+			_ = c18Marshalizer{}.Unmarshal(d, v)
+			return true, builtInFunctions.ESDTUserMetadataFromBytes(d.Properties).Frozen
+		}
+		a := holding(false)
+		if err := call(a, user, tok); err == nil {
+			if p, f := state(a); p && f {
+				return [][2]string{{"freeze", "true"}, {"wipe", "false"}}
+			}
+		}
+		a = holding(true)
+		if err := call(a, user, tok); err == nil {
+			p, f := state(a)
+			if !p {
+				return [][2]string{{"freeze", "false"}, {"wipe", "true"}}
+			}
+			if !f {
+				return [][2]string{{"freeze", "false"}, {"wipe", "false"}}
+			}
+		}
+		return [][2]string{{"freeze", "?"}, {"wipe", "?"}}
+	case "ESDTPause", "ESDTUnPause":
+		sysH, err := w.accounts.LoadAccount(vmcommon.SystemAccountAddress)
+		sys, _ := sysH.(vmcommon.UserAccountHandler)
+		if err != nil || sys == nil {
+			return [][2]string{{"pause", "?"}}
+		}
+		paused := func() bool {
+			v, _ := sys.AccountDataHandler().RetrieveValue(key)
+			return builtInFunctions.ESDTGlobalMetadataFromBytes(v).Paused
+		}
+		if err := call(nil, vmcommon.SystemAccountAddress, tok); err == nil && paused() {
+			return [][2]string{{"pause", "true"}}
+		}
+		_ = sys.AccountDataHandler().SaveKeyValue(key, (&builtInFunctions.ESDTGlobalMetadata{Paused: true}).ToBytes())
+		if err := call(nil, vmcommon.SystemAccountAddress, tok); err == nil && !paused() {
+			return [][2]string{{"pause", "false"}}
+		}
+		return [][2]string{{"pause", "?"}}
+	case "ESDTSetRole", "ESDTUnSetRole":
+		role := []byte(vmcommon.ESDTRoleNFTBurn)
+		rkey := append([]byte(vmcommon.ElrondProtectedKeyPrefix+vmcommon.ESDTRoleIdentifier+vmcommon.ESDTKeyIdentifier), tok...)
+		has := func(a *c18Account) bool {
+			v, _ := a.RetrieveValue(rkey)
+			rs := &esdt.ESDTRoles{}
+			if len(v) > 0 {
+				_ = c18Marshalizer{}.Unmarshal(rs, v)
+			}
+			for _, x := range rs.Roles {
+				if bytes.Equal(x, role) {
+					return true
+				}
+			}
+			return false
+		}
+		a := c18NewAccount(user)
+		if err := call(a, user, tok, role); err == nil && has(a) {
+			return [][2]string{{"set", "true"}}
+		}
+		a = c18NewAccount(user)
+		b, _ := c18Marshalizer{}.Marshal(&esdt.ESDTRoles{Roles: [][]byte{role}})
+		_ = a.SaveKeyValue(rkey, b)
+		if err := call(a, user, tok, role); err == nil && !has(a) {
+			return [][2]string{{"set", "false"}}
+		}
+		return [][2]string{{"set", "?"}}
+	}
+	return nil
 }
 
 func c18CoqString(s string) string { return "\"" + strings.ReplaceAll(s, "\"", "\"\"") + "\"" }
@@ -389,6 +504,7 @@ func c18CheckRegistry(c *ctx, cfgName string, gas map[string]map[string]uint64, 
 				continue
 			}
 			r := c18Reflect(fn)
+			r.flags = c18BehaviourFlags(w, name, fn)
 			exp, known := c18Expected[name]
 			ok := known && r.typ == exp.typ && r.flagString() == exp.flags && r.enabled == exp.enabled &&
 				(!r.enabled || (r.function == name && r.act == act)) &&
@@ -410,6 +526,9 @@ func c18CheckRegistry(c *ctx, cfgName string, gas map[string]map[string]uint64, 
 			if phase == "created" {
 				var fl []string
 				for _, f := range r.flags {
+					if f[1] == "?" {
+						continue
+					}
 					fl = append(fl, fmt.Sprintf("(%s, %s)", c18CoqString(f[0]), f[1]))
 				}
 				c.addCase(fmt.Sprintf("KBound %s %s %s %s %s %s %s", cBytes([]byte(name)), c18CoqString(r.typ), cList(fl), cBool(r.enabled),
